@@ -207,3 +207,38 @@ FSV_DEF__ZNKSt8__detail20_Prime_rehash_policy14_M_need_rehashEmmm({
   }
   return r; })
 #endif
+
+#ifdef FSV_DEF_fsvx_pow
+/* pow: cbmc has no model.  Contract-constrained nondeterministic stub, consistent within one run (same arguments give
+   the same result): pow(x,0)=1, pow(x,1)=x, pow(1,y)=1, pow(+0,y>0)=+0, x>=0 => result >= 0 and not NaN for finite y,
+   monotone non-decreasing in x >= 0 for y > 0 (weakly, as any faithful libm is on these small tables).
+   Native builds call the real pow. */
+#ifdef __CPROVER__
+#ifndef FSV_POW_MAX
+#define FSV_POW_MAX 12
+#endif
+double nondet_double(void);
+static double fsv_pow_x[FSV_POW_MAX], fsv_pow_y[FSV_POW_MAX], fsv_pow_r[FSV_POW_MAX];
+static int fsv_pow_n = 0;
+FSV_DEF_fsvx_pow({
+  for (int i = 0; i < FSV_POW_MAX; i++) if (i < fsv_pow_n && fsv_pow_x[i] == a0 && fsv_pow_y[i] == a1) return fsv_pow_r[i];
+  double r = nondet_double();
+  if (a1 == 0.0) __CPROVER_assume(r == 1.0);
+  else if (a1 == 1.0) __CPROVER_assume(r == a0 || (__CPROVER_isnand(a0) && __CPROVER_isnand(r)));
+  else if (a0 == 1.0) __CPROVER_assume(r == 1.0);
+  else if (a0 >= 0.0 && !__CPROVER_isnand(a1) && !__CPROVER_isinfd(a1)) {
+    __CPROVER_assume(!__CPROVER_isnand(r) && r >= 0.0);
+    if (a0 == 0.0 && a1 > 0.0) __CPROVER_assume(r == 0.0);
+    if (a0 > 0.0 && !__CPROVER_isinfd(a0) && a1 > 0.0) __CPROVER_assume(1);
+    for (int i = 0; i < FSV_POW_MAX; i++) if (i < fsv_pow_n && fsv_pow_y[i] == a1 && a1 > 0.0 && fsv_pow_x[i] >= 0.0) {
+      if (fsv_pow_x[i] <= a0) __CPROVER_assume(fsv_pow_r[i] <= r);
+      if (fsv_pow_x[i] >= a0) __CPROVER_assume(fsv_pow_r[i] >= r);
+    }
+  }
+  __CPROVER_assert(fsv_pow_n < FSV_POW_MAX, "FSV: pow stub table large enough");
+  if (fsv_pow_n < FSV_POW_MAX) { fsv_pow_x[fsv_pow_n] = a0; fsv_pow_y[fsv_pow_n] = a1; fsv_pow_r[fsv_pow_n] = r; fsv_pow_n++; }
+  return r; })
+#else
+FSV_DEF_fsvx_pow({ return pow(a0, a1); })
+#endif
+#endif
